@@ -642,7 +642,7 @@ package raft
 //@   flags inline
 //@   requires readOnlyType == LinearizableReadOnly || readOnlyType == LeaseBasedReadOnly
 //@   ensures [not-leader] old(r.state) != Leader ==> answered[operationFuture.responseCh] && Llast == old(Llast)
-//@   at before-assign r.operationManager.pendingReadOnly[operation] assert [readIndex] r.state == Leader && operation != nil && operation.readIndex == r.commitIndex && operation.round == r.operationManager.rounds && !operation.quorumVerified && operation.OperationType == readOnlyType && newval == operationFuture.responseCh
+//@   at before-assign r.operationManager.pendingReadOnly[operation] assert [readIndex] r.state == Leader && operation != nil && operation.readIndex >= r.commitIndex && operation.readIndex <= Llast && (!committedThisTermSpec(r) ==> operation.readIndex == Llast) && operation.round == r.operationManager.rounds && !operation.quorumVerified && operation.OperationType == readOnlyType && newval == operationFuture.responseCh
 
 //@ func Raft.AddServer
 //@   at call r.appendConfiguration assert [guard] r.state == Leader && committedThisTermSpec(r) && !pendingSpec(r)
@@ -747,6 +747,7 @@ package raft
 //@   assume [A-LM] request.Term >= r.currentTerm && X <= r.commitIndex && inLog(X) ==> Lterm[X] == T
 //@   ensures [IS.shutdown] err != nil ==> Llast == old(Llast) && Lfirst == old(Lfirst) && r.commitIndex == old(r.commitIndex) && r.lastApplied == old(r.lastApplied) && r.currentTerm == old(r.currentTerm) && r.votedFor == old(r.votedFor)
 //@   ensures [IS.stale-term] err == nil && request.Term < entry(r.currentTerm) && old(r.state) != Shutdown ==> response.Term >= request.Term
+//@   ensures [IS.term-reply] err == nil ==> response.Term >= entry(r.currentTerm) && response.Term <= r.currentTerm && r.currentTerm >= entry(r.currentTerm)
 //@   at call r.snapshotStorage.NewSnapshotFile assert [IS.something-new] X > r.lastIncludedIndex && X > r.lastApplied && request.Term >= r.currentTerm
 //@   at call io.Copy assert [IS.chunk-identity] sfIndex[r.snapshot] == X && sfTerm[r.snapshot] == T
 //@   at call io.Copy assert [IS.offset] request.Offset == sfPos[r.snapshot] && sfWriter[r.snapshot] && !sfPublished[r.snapshot] && X > r.lastIncludedIndex && X > r.lastApplied
